@@ -154,17 +154,19 @@ def stepC13 (st : St) (op : String) (got : String) : StepResult St :=
     | some s, some vs, some sig, some k, some junk =>
       match lastSig s.fields with
       | none => { st := st, expected := some "skip" }
-      | some sigTyp =>
+      | some _ =>
         if got == "skip" then { st := st, expected := none }
         else
-          -- the signed encoding = plain encoding ++ SignatureValue; junk at top-level boundary k
+          -- the signed encoding is the MODEL's encoding of the value with the signature field set to
+          -- the bytes the caller supplies; junk at top-level boundary k by `insAt`, the function the
+          -- theorems `unknown_noncritical_skipped` / `unknown_critical_rejected_unless_ignored` are about
           let implBytes := (bytesOfHex ((got.splitOn " ").getD 0 "")).getD []
           let icb := ic == "1"
-          let items := (liveItems s.fields vs).map encItem ++ [tlv sigTyp sig]
-          if k > items.length then { st := st, expected := some "skip" }
-          else
-            let nb := (items.take k).flatten ++ junk ++ (items.drop k).flatten
-            let want := "ok " ++ (Val.struct (setSig s.fields vs sig)).toText
+          let vsS := setSig s.fields vs sig
+          match insAt s.fields vsS [] k junk with
+          | none => { st := st, expected := some "skip" }
+          | some nb =>
+            let want := "ok " ++ (Val.struct vsS).toText
             let expected := hexOrDash nb ++ " " ++ resText (parse s icb nb)
             let jt := (decTL junk).map (·.1)
             let known := match jt with
